@@ -25,7 +25,7 @@ LEVEL_TEXT = ("Step-cases with 10^3 particles each: random steep and flat bathym
 LEVEL_NOTE = "Asserted only where |vertical displacement| < h(start cell), as the property states. Trusts the spied W as the diffusion draw (its statistics are C11)."
 RULE = ("case = direct (bathymetry seed, Dz, w, scheme, flow) or e2e (ROMS world, Dz, w). Non-trivial: some particle was reflected at the surface or at the bottom and some particle "
         "changed cell during the step; distinct by parameters.")
-MANDATORY = ["e2e_grid_module_ROMS2", "e2e_vtransform1_cells_shallower_than_hc", "reflected_at_surface", "reflected_at_bottom", "changed_cell_same_step", "start_at_surface_or_bottom", "vertical_advection", "vertical_diffusion",
+MANDATORY = ["e2e_horizontal_diffusion_too", "e2e_forcing_files_with_other_bathymetry", "e2e_grid_module_ROMS2", "e2e_vtransform1_cells_shallower_than_hc", "reflected_at_surface", "reflected_at_bottom", "changed_cell_same_step", "start_at_surface_or_bottom", "vertical_advection", "vertical_diffusion",
              "both_off_untouched", "steps_checked", "e2e_records_checked", "large_displacement_fraction", "e2e_subgrid_off_diagonal", "inactive_particles_reflected", "e2e_inactive_particles"]
 ASSUMPTIONS = ["|displacement| < h of the start cell (larger ones are outside the property)"]
 TIMEOUT = {"quick": 900, "thorough": 3400}
@@ -194,7 +194,21 @@ def _e2e(case, wd, V, sit, cnt):
 
     if roms2:
         _bump(sit, "e2e_grid_module_ROMS2")
-    res, conf, world = run_scenario(dict(world=w, run=run), wd, tweak=tweak)
+    if case["idx"] % 2 == 0:
+        run["diffusion"] = 0.5 * (0.1 * 1000.0) ** 2 / dt  # horizontal diffusion in the same run (steps of about a tenth of a cell)
+        _bump(sit, "e2e_horizontal_diffusion_too")
+    # the grid file is a file of its own; the forcing files carry a different (deeper) bathymetry that must not be used
+    from netCDF4 import Dataset  # noqa: PLC0415
+
+    from vmon import world as W  # noqa: PLC0415
+
+    pre = W.write_world(wd / "world", w)
+    if case["idx"] % 3 == 1:
+        for fn in pre["files"]:
+            with Dataset(fn, "r+") as nc:
+                nc.variables["h"][:] = np.array(nc.variables["h"][:]) + 60.0
+        _bump(sit, "e2e_forcing_files_with_other_bathymetry")
+    res, conf, world = run_scenario(dict(world=None, run=run), wd, world=pre, tweak=tweak)
     desc = dict(kind="e2e", Dz=Dz, w=wv, idx=case["idx"], grid_module="ladim.ROMS2" if roms2 else "ladim.ROMS")
     if not res.ok:
         V.append(C.viol(f"end-to-end run with vertical motion did not complete: {res.exc}", tb=res.tb[-1200:], **desc))
